@@ -1,4 +1,5 @@
 import MpfVerif.DriverLoop
-import MpfVerif.Model.Switch
-/-! Driver of the C03 models (switch controller, one instance per switch; Switch device events, one instance per switch). -/
-def main : IO UInt32 := MpfVerif.runDriver MpfVerif.Switch.driverStep {}
+import MpfVerif.Model.SwitchNet
+/-! Driver of the C03 models (switch controller, one instance per switch; Switch device events, one instance per switch;
+lines starting with `n`: the multi-switch model with re-entrant dispatch). -/
+def main : IO UInt32 := MpfVerif.runDriver MpfVerif.SwitchNet.bothStep ({}, {})
